@@ -124,6 +124,15 @@ func spkUniverseFor(prop string, thorough bool) *spkUniverse {
 		{Name: "bgp-pool-a-only+pool-b-unadvertised", Pools: []metallbv1beta1.IPAddressPool{poolA, poolB}, BGPAdvs: []metallbv1beta1.BGPAdvertisement{advB}, Peers: peers},
 		{Name: "pool-renamed", Pools: []metallbv1beta1.IPAddressPool{spkPool("pool-x", "10.0.1.0/24", "fc00:1::/64")}, L2Advs: []metallbv1beta1.L2Advertisement{l2("l2")}, BGPAdvs: []metallbv1beta1.BGPAdvertisement{advA}, Peers: peers},
 	}
+	// the same peers, p1 authenticated with the content of a Secret: the two configurations differ in nothing but that content
+	p1s := *p1.DeepCopy()
+	p1s.Spec.PasswordSecret = v1.SecretReference{Name: "bgp-secret", Namespace: spkNS}
+	secret := func(pw string) v1.Secret {
+		return v1.Secret{ObjectMeta: metav1.ObjectMeta{Name: "bgp-secret", Namespace: spkNS}, Type: v1.SecretTypeBasicAuth, Data: map[string][]byte{"password": []byte(pw)}}
+	}
+	u.Configs = append(u.Configs,
+		spkConfig{Name: "bgp-a-p1-secret", Pools: []metallbv1beta1.IPAddressPool{poolA}, BGPAdvs: []metallbv1beta1.BGPAdvertisement{advA}, Peers: []metallbv1beta2.BGPPeer{p1s, p2}, Secrets: []v1.Secret{secret("one")}},
+		spkConfig{Name: "bgp-a-p1-secret-rotated", Pools: []metallbv1beta1.IPAddressPool{poolA}, BGPAdvs: []metallbv1beta1.BGPAdvertisement{advA}, Peers: []metallbv1beta2.BGPPeer{p1s, p2}, Secrets: []v1.Secret{secret("two")}})
 	if !thorough {
 		u.SvcVars = u.SvcVars[:8]
 		u.NodeVars[spkMe] = []spkNodeVariant{u.NodeVars[spkMe][0], u.NodeVars[spkMe][1], u.NodeVars[spkMe][2], u.NodeVars[spkMe][4]}
